@@ -94,6 +94,8 @@ def check(prog: Program, run: Run) -> None:
     from . import c01
     from .common import run_as
     run_as(run, "C01.R7", "C02.R6", lambda r: c01._terminator(prog, r))
+    # where the bytes of a value land: relative to the origin of the enclosing object
+    c01._origin_window(prog, run, "C02.R3")
 
 
 # ----------------------------------------------------------------------- R1
